@@ -290,6 +290,89 @@ func init() {
 		} else {
 			problem("ppipe.startWorker not found")
 		}
+		// --- the order of "sign off" and "check for more data" (C11's pipe-worker clause). By structure: the field startWorker's
+		// condition negates (`!pd.<charged>`) and the field its `Less` call is given (`….Less(pd.<lastKnown>)`) are read from
+		// startWorker itself; workerDone must assign `false` to the first BEFORE it calls startWorker, onWriteEvent must assign the
+		// second BEFORE it calls startWorker, and in both functions assignment and call lie between one Lock() and the last Unlock()
+		chargedField, lastKnownField := "", ""
+		if fd := funcDecl(ppf, "ppipe", "startWorker"); fd != nil {
+			ast.Inspect(fd.Body, func(n ast.Node) bool {
+				switch x := n.(type) {
+				case *ast.UnaryExpr:
+					if se, ok := x.X.(*ast.SelectorExpr); ok && x.Op == token.NOT && chargedField == "" {
+						chargedField = se.Sel.Name
+					}
+				case *ast.CallExpr:
+					if se, ok := x.Fun.(*ast.SelectorExpr); ok && se.Sel.Name == "Less" && len(x.Args) == 1 {
+						if a, ok := x.Args[0].(*ast.SelectorExpr); ok {
+							lastKnownField = a.Sel.Name
+						}
+					}
+				}
+				return true
+			})
+		}
+		// position of the first assignment `<x>.<field> = <rhs>` (rhsFalse: the right-hand side must be the literal false)
+		assignPos := func(body ast.Node, field string, rhsFalse bool) token.Pos {
+			var pos token.Pos
+			if body == nil || field == "" {
+				return pos
+			}
+			ast.Inspect(body, func(n ast.Node) bool {
+				if as, ok := n.(*ast.AssignStmt); ok && len(as.Lhs) == 1 && len(as.Rhs) == 1 && pos == 0 {
+					if se, ok := as.Lhs[0].(*ast.SelectorExpr); ok && se.Sel.Name == field {
+						if id, isId := as.Rhs[0].(*ast.Ident); !rhsFalse || (isId && id.Name == "false") {
+							pos = as.Pos()
+						}
+					}
+				}
+				return true
+			})
+			return pos
+		}
+		// first Lock() and last Unlock() of the function body (deferred Unlock: the end of the body)
+		lockSpan := func(fd *ast.FuncDecl) (lo, hi token.Pos) {
+			ast.Inspect(fd.Body, func(n ast.Node) bool {
+				switch x := n.(type) {
+				case *ast.DeferStmt:
+					if se, ok := x.Call.Fun.(*ast.SelectorExpr); ok && se.Sel.Name == "Unlock" {
+						hi = fd.Body.End()
+					}
+					return false
+				case *ast.CallExpr:
+					if se, ok := x.Fun.(*ast.SelectorExpr); ok {
+						if se.Sel.Name == "Lock" && lo == 0 {
+							lo = x.Pos()
+						}
+						if se.Sel.Name == "Unlock" && x.Pos() > hi {
+							hi = x.Pos()
+						}
+					}
+				}
+				return true
+			})
+			return
+		}
+		signOffFirst, recordFirst, underLock := false, false, false
+		wdFd, weFd := funcDecl(ppf, "ppipe", "workerDone"), funcDecl(ppf, "ppipe", "onWriteEvent")
+		if wdFd != nil && weFd != nil && chargedField != "" && lastKnownField != "" {
+			_, swd := c10CallsMethod(wdFd.Body, "startWorker")
+			_, swe := c10CallsMethod(weFd.Body, "startWorker")
+			a1, a2 := assignPos(wdFd.Body, chargedField, true), assignPos(weFd.Body, lastKnownField, false)
+			signOffFirst = a1 != 0 && swd != 0 && a1 < swd
+			recordFirst = a2 != 0 && swe != 0 && a2 < swe
+			l1, h1 := lockSpan(wdFd)
+			l2, h2 := lockSpan(weFd)
+			underLock = signOffFirst && recordFirst && l1 != 0 && l1 < a1 && swd < h1 && l2 != 0 && l2 < a2 && swe < h2
+		} else {
+			problem("ppipe.workerDone / ppipe.onWriteEvent / the fields of startWorker's condition not found")
+		}
+		l.p("/-- `workerDone` signs the worker off (`pd.wCharged = false`) BEFORE it checks for more data (`startWorker`) -/")
+		l.p("def workerDoneSignsOffBeforeRecheck : Bool := %s", leanBool(signOffFirst))
+		l.p("/-- `onWriteEvent` records the notified end position (`pd.LastKnwnPos = …`) BEFORE it calls `startWorker` -/")
+		l.p("def onWriteEventRecordsBeforeStart : Bool := %s", leanBool(recordFirst))
+		l.p("/-- … and in both functions the assignment and the call happen inside one critical section of the pipe's lock -/")
+		l.p("def signOffAndNotificationUnderOneLock : Bool := %s", leanBool(underLock))
 		l.p("/-- `startWorker` tests `closedCtx.Err() == nil && !pd.wCharged && pd.Pos.Less(pd.LastKnwnPos)` -/")
 		l.p("def startWorkerCondition : Bool := %s", leanBool(condOK))
 		l.p("/-- … and also that the pipe itself is alive (`pp.clsCtx` / `pp.deleted`) -/")
